@@ -374,6 +374,8 @@ def owns(prop, ev, tag):
         # the acceptance rule applied to the implementation's own per-record results
         return e == "ctl_records" and (died or tag in ("all-or-nothing", "error-count", "error-order", "empty-errors"))
     if prop == "C16":
+        if e == "decode" and ev.get("enum_many"):
+            return died or tag == "verdict"          # a message full of unassigned codes must still be rejected
         return e in ("enum_map", "enum_names")
     if prop == "C17":
         return e == "bitmask" and tag != "bitmask-layout"       # which bit carries which flag is C06's layout
